@@ -536,7 +536,7 @@ UnlockAll(S, c) ==
 (***************************************************************************)
 (* Sessions (worterbuch.rs:1063-1106, 1220-1378)                           *)
 (***************************************************************************)
-NumTok(n) == ToString(n)
+NumTok(n) == "j:" \o ToString(n)     \* token of a JSON number
 ClientsKey == <<SYS, CLIENTS>>
 ClientKey(c, leaf) == <<SYS, CLIENTS, c, leaf>>
 
